@@ -242,5 +242,8 @@ SIM_ASSUME = [
 def replay(ctx, path):
     out = replay_file(path)
     print(json.dumps(out, indent=1)[:3000])
+    if out.get("status") == "stopped":
+        print("the recorded schedule no longer applies to the code under /repo (an actor the schedule names was not runnable): "
+              "the behaviour that was recorded cannot be reproduced on this tree")
     bad = [a for a in out.get("anomalies", []) if ctx.prop in a["props"]]
     return 1 if bad else 0
